@@ -13,15 +13,43 @@ type generator struct {
 	memo map[genKey][]*node
 }
 
-func newGenerator(core bool) *generator {
+// newGenerator: all operators, the core set, or (group != "") the operators of ONE level of the
+// table - the same-level chain family, which goes further in size than the mixed trees.
+func newGenerator(core bool, group string) *generator {
 	g := &generator{memo: map[genKey][]*node{}}
 	for _, o := range ops {
+		if group != "" {
+			if groupOf(o) == group {
+				g.ops = append(g.ops, o)
+			}
+			continue
+		}
 		if !core || o.core {
 			g.ops = append(g.ops, o)
 		}
 	}
 	return g
 }
+
+// groupOf names the level an operator belongs to in the chain family; "" = its chains are left
+// open by the statement (comparison, equality), so there is nothing to drop.
+func groupOf(o *opDef) string {
+	switch o.cls {
+	case clsCmp, clsEq:
+		return ""
+	case clsPrefix, clsCast:
+		return "unary"
+	}
+	return o.cls.name
+}
+
+// chainGroups: levels enumerated by the chain family; wide = many operators on the level (one
+// operator fewer per chain than the others).
+var chainGroups = []struct {
+	name string
+	wide bool
+}{{"pow", false}, {"unary", true}, {"mul", false}, {"add", false}, {"shift", false}, {"bitand", false}, {"bitxor", false},
+	{"bitor", false}, {"and", false}, {"or", false}, {"concat", false}, {"coalesce", false}, {"ternary", false}, {"assign", true}}
 
 // targets of assignments by type and chain depth
 var targets = map[typ][]string{tI: {"v", "w", "x", "y"}, tS: {"s", "t", "z", "zz"}, tB: {"p", "q", "pp", "qq"}}
